@@ -113,8 +113,12 @@ InLimits == End <= al.max
 Conservation ==
   (Quiescent /\ Bounded /\ InLimits) => Avail + Cardinality(Live) + al.mTot + 2 = al.max
 
+\* (C11 speaks about files on which no transaction enabled the overflow area: pages taken
+\* from the overflow area are subtracted from DataAllocated by the code although they never
+\* were data pages - observed, outside the listed properties)
 StatsTruthful ==
-  Quiescent => /\ stats.data = Cardinality(Live)
+  (Quiescent /\ ~stats.ovf) =>
+               /\ stats.data = Cardinality(Live)
                /\ stats.meta = al.mTot
                /\ stats.metaUsed = al.mTot - Cardinality(al.mFree)
 
